@@ -271,14 +271,14 @@ func genC03(ctx *Ctx) []Case {
 	// ---- witnesses ----
 	{
 		rows := append(seqRows(300), []string{"0254", "dup"})
-		g.add("witness", true, c01Case{0, ab, []string{"a"}, rows, g.huge, []int{1, 0}, 4, ','}) // fa79010 blkPK from a discarded duplicate
-		g.add("witness", true, c01Case{0, ab, []string{"a"}, rows, 64, []int{1, 0}, 8, ','})
-		g.add("witness", true, c01Case{2, ab, []string{"a"}, rows, 4096, nil, 3, ','})
+		g.add("witness", true, c01Case{nil, 0, ab, []string{"a"}, rows, g.huge, []int{1, 0}, 4, ','}) // fa79010 blkPK from a discarded duplicate
+		g.add("witness", true, c01Case{nil, 0, ab, []string{"a"}, rows, 64, []int{1, 0}, 8, ','})
+		g.add("witness", true, c01Case{nil, 2, ab, []string{"a"}, rows, 4096, nil, 3, ','})
 	}
-	g.add("witness", true, c01Case{0, ab, []string{"a"}, [][]string{{"", ""}, {"x", "y"}}, g.huge, nil, 1, ','}) // 24a3386 diagnose first row all-empty
-	g.add("witness", true, c01Case{1, ab, []string{"a"}, [][]string{{"", ""}, {"x", "y"}}, 4096, nil, 1, ','})
-	g.add("witness", true, c01Case{0, []string{"a"}, nil, [][]string{{""}, {"x"}}, 1, nil, 1, ','})
-	g.add("witness", true, c01Case{0, ab, []string{"a"}, [][]string{{"", "1"}, {"x", "2"}}, g.huge, nil, 1, ','}) // 8d128f5
+	g.add("witness", true, c01Case{nil, 0, ab, []string{"a"}, [][]string{{"", ""}, {"x", "y"}}, g.huge, nil, 1, ','}) // 24a3386 diagnose first row all-empty
+	g.add("witness", true, c01Case{nil, 1, ab, []string{"a"}, [][]string{{"", ""}, {"x", "y"}}, 4096, nil, 1, ','})
+	g.add("witness", true, c01Case{nil, 0, []string{"a"}, nil, [][]string{{""}, {"x"}}, 1, nil, 1, ','})
+	g.add("witness", true, c01Case{nil, 0, ab, []string{"a"}, [][]string{{"", "1"}, {"x", "2"}}, g.huge, nil, 1, ','}) // 8d128f5
 	// ---- block-boundary sizes N*255+r, all run sizes, duplicates at the boundaries ----
 	rs := []uint64{1, 64, 4096, g.huge}
 	sizes := []int{0, 1, 127, 254, 255, 256, 382, 509, 510, 511, 765, 766}
@@ -292,7 +292,7 @@ func genC03(ctx *Ctx) []Case {
 		if si%3 == 2 {
 			kind = 2
 		}
-		g.add("boundary", n >= 2, c01Case{kind, ab, []string{"a"}, rows, rs[si%4], g.arrival(), c01Workers[si%len(c01Workers)], ','})
+		g.add("boundary", n >= 2, c01Case{nil, kind, ab, []string{"a"}, rows, rs[si%4], g.arrival(), c01Workers[si%len(c01Workers)], ','})
 		ctx.Count("boundary_sizes")
 		if n >= 255 {
 			// duplicates of the rows around every block boundary, appended / prepended
@@ -305,9 +305,9 @@ func genC03(ctx *Ctx) []Case {
 				}
 			}
 			rows2 := append(append([][]string{}, dups...), rows...)
-			g.add("boundary", true, c01Case{0, ab, []string{"a"}, rows2, rs[(si+1)%4], g.arrival(), c01Workers[(si+2)%len(c01Workers)], ','})
+			g.add("boundary", true, c01Case{nil, 0, ab, []string{"a"}, rows2, rs[(si+1)%4], g.arrival(), c01Workers[(si+2)%len(c01Workers)], ','})
 			rows3 := append(append([][]string{}, rows...), dups...)
-			g.add("boundary", true, c01Case{2, ab, nil, rows3, rs[(si+2)%4], g.arrival(), c01Workers[(si+3)%len(c01Workers)], ','})
+			g.add("boundary", true, c01Case{nil, 2, ab, nil, rows3, rs[(si+2)%4], g.arrival(), c01Workers[(si+3)%len(c01Workers)], ','})
 			ctx.Count("boundary_with_duplicates")
 		}
 	}
